@@ -123,3 +123,155 @@ def _gen(rng):
 
 
 maybe_run.gen = _gen
+
+
+# ------------------------------------------------------------------ hash_query
+def _hash_contraction(engine, st, args, node, kwargs):
+    q = [engine.keyterm(engine.deref(st, a)) for a in args[:3]]
+    key = "uf!H"
+    if key not in engine.specfns:
+        engine.specfns[key] = (z3.Function(key, Ty.IntS, Ty.IntS, Ty.IntS, Ty.IntS), [], Int, None)
+    return V(Key, [engine.specfns[key][0](*q)])
+
+
+QOptT = ObjT("ReusableOptimizer", {"_cache": CacheT, "_hash_method": Ty.Key, "directory_split": Ty.Bool})
+hash_query = Contract(
+    target="cotengra.reusable:ReusableOptimizer.hash_query",
+    variant="flat",
+    props=["C14", "C15"],
+    self_type=QOptT,
+    params={"inputs": Ty.Key, "output": Ty.Key, "size_dict": Ty.Key},
+    requires=["not self.directory_split"],
+    returns=Ty.Tuple([Ty.Key, Ty.Bool]),
+    externals={"hash_contraction": _hash_contraction, "fingerprint": _hash_contraction},
+    ensures=[
+        # the key is the fingerprint of the query and 'missing' is exactly its absence from the cache
+        "result[0] == fingerprint(inputs, output, size_dict)",
+        "result[1] == (not (result[0] in self._cache))",
+    ],
+    ensures_t1=["keys(self._cache) == old(keys(self._cache))"],
+    ensures_rt=["set(self._cache._mem_cache) == old(set(self._cache._mem_cache))"],
+    assumptions=["hash_contraction is a pure fingerprint function of the query and the hash method; flat keys (directory_split=False)"],
+)
+
+
+# -------------------------------------------------------------- update_from_tree
+TreeQT = ObjT("ContractionTree", {"inputs": Ty.Key, "output": Ty.Key, "size_dict": Ty.Key, "sliced_inds": Ty.Key})
+UConT = Ty.SDict({"path": Ty.Key, "score": Ty.Real, "sliced_inds": Ty.Key})
+UCacheT = Ty.Map(Ty.Key, UConT)
+UOptT = ObjT("ReusableOptimizer", {"_cache": UCacheT})
+
+
+def _u_hash_query(engine, st, args, node, kwargs):
+    selfref = args[0]
+    q = [engine.keyterm(engine.deref(st, a)) for a in args[1:]]
+    key = "uf!H"
+    if key not in engine.specfns:
+        engine.specfns[key] = (z3.Function(key, Ty.IntS, Ty.IntS, Ty.IntS, Ty.IntS), [], Int, None)
+    h = engine.specfns[key][0](*q)
+    cache = engine.deref(st, engine.deref(st, selfref).fields["_cache"])
+    return Ty.mk_tuple([V(Key, [h]), V(Bool, [z3.Not(cache.c[0][h])])])
+
+
+def _uf1(name, ret=Ty.IntS, rt=Int):
+    def ext(engine, st, args, node, kw):
+        key = f"uf!{name}"
+        if key not in engine.specfns:
+            engine.specfns[key] = (z3.Function(key, Ty.IntS, ret), [], Int, None)
+        t = args[0]
+        tid = z3.IntVal(t.id) if hasattr(t, "id") else engine.keyterm(engine.deref(st, t))
+        return V(rt, [engine.specfns[key][0](tid)])
+
+    return ext
+
+
+def _tuple_of(engine, st, args, node, kw):
+    return args[0]
+
+
+UH = "self.hash_query(tree.inputs, tree.output, tree.size_dict)[0]"
+UMISS = "old(self.hash_query(tree.inputs, tree.output, tree.size_dict)[1])"
+NEW = "self._cache[UH]['path'] == tree.get_path() and self._cache[UH]['score'] == tree.get_score() and self._cache[UH]['sliced_inds'] == tuple(tree.sliced_inds)"
+update_from_tree = Contract(
+    target="cotengra.reusable:ReusableOptimizer.update_from_tree",
+    props=["C14"],
+    self_type=UOptT,
+    params={"tree": TreeQT, "overwrite": Ty.Key},
+    hints={"new_con": UConT, "old_con": UConT},
+    requires=["forall(lambda k: implies(k in self._cache, 'score' in self._cache[k] and 'path' in self._cache[k] and 'sliced_inds' in self._cache[k]))"],
+    lets={"UH": UH},
+    externals={"ReusableOptimizer.hash_query": _u_hash_query, "ContractionTree.get_path": _uf1("tree_path", Ty.IntS, Key),
+               "ContractionTree.get_score": _uf1("tree_score", Ty.RealS, Ty.Real), "tuple": _tuple_of},
+    modifies=["self._cache"],
+    ensures=[
+        "UH in self._cache",
+        # missing, or overwrite=True: the tree's record is stored
+        f"implies({UMISS} or (bool(overwrite) and overwrite != 'improved'), {NEW})",
+        # present and overwrite falsy: untouched
+        f"implies(not {UMISS} and not bool(overwrite), self._cache[UH] == old(self._cache[UH]))",
+        # 'improved': the better of the two stays
+        f"implies(not {UMISS} and overwrite == 'improved', (tree.get_score() < old(self._cache[UH]['score']) and {NEW}) or (not (tree.get_score() < old(self._cache[UH]['score'])) and self._cache[UH] == old(self._cache[UH])))",
+        # frame
+        "forall(lambda k: implies(k != UH, (k in self._cache) == old(k in self._cache)))",
+        "forall(lambda k: implies(k != UH and k in self._cache, self._cache[k] == old(self._cache[k])))",
+    ],
+    assumptions=["hash_query returns (H(query), H(query) not in cache); overwrite is modelled by truthiness plus equality with 'improved'; tuple(sliced_inds) is the identity on an opaque value"],
+)
+CONTRACTS += [hash_query, update_from_tree]
+
+
+
+def _opt(rng):
+    from cotengra.reusable import ReusableOptimizer
+    from cotengra.utils import DiskDict
+
+    o = object.__new__(ReusableOptimizer)
+    o._suboptimizers = {}
+    o._suboptimizer_kwargs = {}
+    o._cache = DiskDict(None)
+    o._hash_method = rng.choice(["a", "b"])
+    o.directory_split = False
+    return o
+
+
+def _gen_hq(rng):
+    from cotengra.reusable import hash_contraction as hc
+
+    o = _opt(rng)
+    pool = [
+        ((("a", "b"), ("b", "c")), ("a", "c"), {"a": 2, "b": 3, "c": 4}),
+        ((("a", "b"), ("b", "c")), ("c", "a"), {"a": 2, "b": 3, "c": 4}),
+        ((("a", "b"), ("b", "c"), ("c",)), ("a",), {"a": 2, "b": 3, "c": 4}),
+    ]
+    for q in rng.sample(pool, rng.randint(0, 2)):
+        o._cache[o.hash_query(*q)[0]] = {"score": 1.0, "path": ((0, 1),), "sliced_inds": ()}
+    q = rng.choice(pool)
+    return {"self": o, "args": q, "bind": {"fingerprint": lambda i, out, sd: hc(i, out, sd, o._hash_method)},
+            "describe": f"method={o._hash_method} cached={len(o._cache._mem_cache)} query={q}"}
+
+
+hash_query.gen = _gen_hq
+
+
+def _gen_uft(rng):
+    import cotengra as ctg
+    from ..scope import random_tree_ssa
+
+    o = _opt(rng)
+    n = rng.randint(2, 5)
+    con = ctg.utils.rand_equation(max(n, 3), 3, seed=rng.randint(0, 50), d_min=2, d_max=3)
+    trees = [ctg.ContractionTree.from_path(con.inputs, con.output, con.size_dict, ssa_path=random_tree_ssa(len(con.inputs), rng)) for _ in range(2)]
+    if rng.random() < 0.7:
+        o.update_from_tree(trees[0], overwrite=True)
+    if rng.random() < 0.3 and con.size_dict:
+        trees[1].remove_ind_(rng.choice(sorted(con.size_dict)))
+    other = ((("x", "y"), ("y",)), ("x",), {"x": 2, "y": 2})
+    if rng.random() < 0.5:
+        o._cache[o.hash_query(*other)[0]] = {"score": 3.0, "path": ((0, 1),), "sliced_inds": ()}
+    ow = rng.choice([False, True, "improved", "improved"])
+    universe = [o.hash_query(trees[1].inputs, trees[1].output, trees[1].size_dict)[0], o.hash_query(*other)[0]]
+    return {"self": o, "args": (trees[1], ow), "universe": universe,
+            "describe": f"{con.inputs}->{con.output} overwrite={ow!r} cached={len(o._cache._mem_cache)} scores {trees[0].get_score():.3f} / {trees[1].get_score():.3f}"}
+
+
+update_from_tree.gen = _gen_uft
